@@ -483,10 +483,7 @@ func (b *builder) call(c *ssa.Call) *Expr {
 	if cc.IsInvoke() {
 		e.Ext = cc.Method
 		e.Args = append(e.Args, b.expr(cc.Value))
-		impl := b.w.CalleesOf(c)
-		if len(impl) == 1 {
-			e.Callee = impl[0]
-		}
+		e.Callee = b.w.PreferredCallee(c)
 	} else if sc := cc.StaticCallee(); sc != nil {
 		u := b.w.unwrap(sc)
 		if b.w.inSet[u] {
